@@ -136,6 +136,25 @@ def run_cgauss(key):
     bad = tol.mismatch(got, want, tol.TIGHT, scale=max(cond * 1e-3, 1.0), what='ccsg.log_pdf')
     if bad:
         return viol(bad, got, want)
+    if D in (2, 3) and ck in ('identity', '100.0'):
+        # many evaluation points (more than any block size): shape and values, point by point the same function
+        Nl = 2051
+        yl = np.zeros(stack + (Nl, D), complex)
+        for idx in np.ndindex(*stack):
+            yl[idx] = A.cnormal(A.rng(seed, 'cgpts-long', D, idx), (Nl, D))
+        yl.setflags(write=False)
+        gl, e = _call(lambda: d.ComplexCircularSymmetricGaussian(covariance=covs).log_pdf(yl))
+        if e is not None:
+            return viol(f'ComplexCircularSymmetricGaussian.log_pdf raised {e!r} for {Nl} points and stack {stack}')
+        gl = np.asarray(gl)
+        if gl.shape != stack + (Nl,):
+            return viol(f'ccsg.log_pdf shape {gl.shape} != {stack + (Nl,)} for {Nl} evaluation points')
+        for idx in np.ndindex(*stack):
+            sel = [0, 1, 1023, 1024, 1025, 2047, 2048, 2050]
+            wl = R.complex_gaussian_logpdf(yl[idx][sel], covs[idx])
+            bad = tol.mismatch(gl[idx][sel], wl, tol.TIGHT, scale=max(cond * 1e-3, 1.0), what='ccsg.log_pdf (2051 points)')
+            if bad:
+                return viol(bad)
     return ok(outcome=tol.digest(want))
 
 
